@@ -36,3 +36,33 @@ def gen_pod_epochs(info):
 
 
 GENERATORS = [gen_pod_epochs]
+
+
+def gen_misc(info):
+    """Small constants probed from the live classes."""
+    from pygac.gac_klm import GACKLMReader
+    from pygac.gac_pod import GACPODReader
+    from pygac.lac_klm import LACKLMReader
+    from pygac.lac_pod import LACPODReader
+    out = [HEADER, "namespace PygacModel.Generated\n"]
+    for cname, cls in [("GacKlm", GACKLMReader), ("LacKlm", LACKLMReader),
+                       ("GacPod", GACPODReader), ("LacPod", LACPODReader)]:
+        r = cls()
+        sd = r.scanline_type.fields["sensor_data"][0]
+        out.append("def sensorWords%s : Nat := %d\n" % (cname, int(np.prod(sd.shape))))
+    # channel-select mask: exhaustive probe of get_ch3_switch over all 16-bit bit fields
+    r = GACKLMReader()
+    bf = np.arange(65536, dtype=">u2")
+    r.scans = np.zeros(65536, dtype=r.scanline_type)
+    r.scans["scan_line_bit_field"] = bf
+    sw = np.asarray(r.get_ch3_switch()).astype(np.int64)
+    m = int(sw[65535])
+    is_and = bool((sw == (np.arange(65536) & m)).all())
+    info["ch3_switch_mask"] = m
+    out.append("def ch3SwitchMask : Nat := %d\n" % m)
+    out.append("def ch3SwitchIsAnd : Bool := %s\n" % lbool(is_and))
+    out.append("end PygacModel.Generated\n")
+    return "Misc.lean", "".join(out)
+
+
+GENERATORS.append(gen_misc)
